@@ -2,6 +2,9 @@
 
 pub mod common;
 pub mod c01;
+pub mod c02;
+pub mod c03;
+pub mod crash;
 pub mod c05;
 
 use crate::runner::Monitor;
@@ -9,6 +12,8 @@ use crate::runner::Monitor;
 pub fn by_id(id: &str) -> Option<Box<dyn Monitor>> {
     match id {
         "C01" => Some(Box::new(c01::C01)),
+        "C02" => Some(Box::new(c02::C02)),
+        "C03" => Some(Box::new(c03::C03)),
         "C05" => Some(Box::new(c05::C05)),
         _ => None,
     }
